@@ -81,7 +81,7 @@ def regack(n):
 //@   ensures [C25] state_same: state(h) == old(state(h))
 //@   ensures [C16] ignored_unless_awaited: !awaited ==> result == nil && h.snOutN == old(h.snOutN) && rt.State == old(rt.State) && rt.Data == old(rt.Data) &&
 //@      finished(tb) == old(finished(tb)) && sameSlice(h.pktBuffer, old(h.pktBuffer)) && %s
-//@   ensures [C02] refusal_ends_exchange: awaited && snRegack.ReturnCode != 0 ==> result == nil && finished(tb) && h.snOutN == old(h.snOutN) &&
+//@   ensures [C02,C01] refusal_ends_exchange: awaited && snRegack.ReturnCode != 0 ==> result == nil && finished(tb) && h.snOutN == old(h.snOutN) &&
 //@      sameSlice(h.pktBuffer, old(h.pktBuffer)) && %s
 //@   ensures [C02,C04] accepted_binds_announced_id: awaited && snRegack.ReturnCode == 0 ==> (box(uint16, reg.TopicID) in h.registeredTopics) &&
 //@      smGet(h.registeredTopics, box(uint16, reg.TopicID)) == box(string, reg.TopicName) &&
